@@ -259,6 +259,8 @@ def run(tier, seed):
         [[5], [], [7, 8, 9], [6, 6], []],
         [[5, 7, 7], [3], [9, 9, 9]],
         [[], [4, 5], [5, 4], [1]],
+        # one descriptor passed twice in a message with another in between
+        [[5, 6, 5], [7], [8, 9, 8, 9]],
         # the 2nd and the 12th message are the same object sent twice (same shape, same descriptors)
         [[1], [4], [], [2], [], [], [3, 3], [], [], [], [], [4]],
     ]
